@@ -17,6 +17,7 @@ use vcommon::{Args, Hasher64, Report, Rng};
 const TRIG: u16 = 31;
 const SENTINEL: u16 = 32;
 const CAPT: u16 = 33;
+const ANSWER: u16 = 34;
 const SEC: u64 = 1_000_000_000;
 
 #[derive(Debug, Clone, Copy, Serialize, Deserialize, PartialEq)]
@@ -50,6 +51,10 @@ pub enum Scenario {
     /// `n` tasks each hold two sleeps with the same deadline, both polled once; the one registered first is dropped
     /// (a guard timer that is no longer needed), the other is awaited
     TwinTimer { n: usize, d_ns: u64 },
+    /// `n` tasks await `timeout(timeout_ns, oneshot)`; a later message of the module (after `answer_ns < timeout_ns`)
+    /// answers them, so the timeout's timer is cancelled in a later event, before its deadline; each task then sleeps
+    /// `sleep_ns`, past the cancelled deadline
+    LateAnswer { n: usize, timeout_ns: u64, answer_ns: u64, sleep_ns: u64 },
 }
 
 #[derive(Debug, Clone, Serialize, Deserialize, PartialEq)]
@@ -87,6 +92,7 @@ impl Trigger {
             Scenario::Answered { n, .. } => 3 * n,
             Scenario::Rearm { n, .. } => 3 * n,
             Scenario::TwinTimer { n, .. } => 2 * n,
+            Scenario::LateAnswer { n, .. } => 2 * n,
         }
     }
 }
@@ -164,6 +170,7 @@ enum Armed {
     ChainMpsc(mpsc::UnboundedSender<()>),
     ChainSem(Arc<Semaphore>),
     Drain(mpsc::UnboundedSender<u64>, usize),
+    Answer(Vec<oneshot::Sender<()>>),
 }
 
 struct Stormy {
@@ -181,7 +188,7 @@ impl Stormy {
         let (local, mixed) = (t.local, t.mixed);
         let local_of = move |k: usize| if mixed { k % 2 == 1 } else { local };
         let armed = match &t.scenario {
-            Scenario::Burst { .. } | Scenario::Answered { .. } | Scenario::Rearm { .. } | Scenario::TwinTimer { .. } => Armed::None,
+            Scenario::Burst { .. } | Scenario::Answered { .. } | Scenario::Rearm { .. } | Scenario::TwinTimer { .. } | Scenario::LateAnswer { .. } => Armed::None,
             Scenario::Notify { n } => {
                 let notify = Arc::new(Notify::new());
                 for k in 0..*n {
@@ -342,6 +349,25 @@ impl Stormy {
                     self.spawned += 1;
                 }
             }
+            Scenario::LateAnswer { n, timeout_ns, answer_ns, sleep_ns } => {
+                let mut txs = Vec::new();
+                for k in 0..*n {
+                    let (timeout_ns, answer_ns, sleep_ns) = (*timeout_ns, *answer_ns, *sleep_ns);
+                    let (tx, rx) = oneshot::channel::<()>();
+                    txs.push(tx);
+                    let h = spawn_any(t.local, async move {
+                        let r = des::time::timeout(Duration::from_nanos(timeout_ns), rx).await;
+                        log(m, ti, k, if r.is_ok() { at + answer_ns } else { u64::MAX });
+                        sleep(Duration::from_nanos(sleep_ns)).await;
+                        log(m, ti, k, at + answer_ns + sleep_ns);
+                        done();
+                    });
+                    current().join(h);
+                    self.spawned += 1;
+                }
+                self.armed[ti] = Armed::Answer(txs);
+                schedule_in(Message::default().kind(ANSWER).id(ti as u16), Duration::from_nanos(*answer_ns));
+            }
             Scenario::TwinTimer { n, d_ns } => {
                 for k in 0..*n {
                     let d_ns = *d_ns;
@@ -423,7 +449,7 @@ impl Stormy {
                         let _ = tx.send(i as u64);
                     }
                 }
-                Armed::None => {}
+                Armed::None | Armed::Answer(_) => {}
             },
         }
     }
@@ -459,6 +485,14 @@ impl Module for Stormy {
     }
 
     fn handle_message(&mut self, msg: Message) {
+        if msg.header().kind == ANSWER {
+            if let Armed::Answer(txs) = std::mem::replace(&mut self.armed[msg.header().id as usize], Armed::None) {
+                for tx in txs {
+                    let _ = tx.send(());
+                }
+            }
+            return;
+        }
         if msg.header().kind == TRIG {
             let ti = msg.header().id as usize;
             self.fire(ti);
@@ -502,7 +536,7 @@ fn expected_tasks(case: &Case) -> u64 {
         .iter()
         .flatten()
         .map(|t| match &t.scenario {
-            Scenario::Burst { n, .. } | Scenario::Notify { n } | Scenario::Captured { n } | Scenario::Answered { n, .. } | Scenario::Rearm { n, .. } | Scenario::TwinTimer { n, .. } => *n as u64,
+            Scenario::Burst { n, .. } | Scenario::Notify { n } | Scenario::Captured { n } | Scenario::Answered { n, .. } | Scenario::Rearm { n, .. } | Scenario::TwinTimer { n, .. } | Scenario::LateAnswer { n, .. } => *n as u64,
             Scenario::Chain { depth, .. } => *depth as u64,
             Scenario::Drain { .. } => 1,
         })
@@ -572,7 +606,11 @@ pub fn gen_trigger(rng: &mut Rng, time_ns: u64, local: bool, big: bool) -> Trigg
         }
     };
     let marathon = !local && rng.chance(1, 300);
-    let scenario = match rng.below(12) {
+    let scenario = match rng.below(13) {
+        12 => {
+            let timeout_ns = *rng.pick(&[10 * SEC, 3 * SEC]);
+            Scenario::LateAnswer { n: 1 + rng.usize_below(5), timeout_ns, answer_ns: *rng.pick(&[SEC, 2 * SEC]), sleep_ns: *rng.pick(&[20 * SEC, 5 * SEC, SEC]) }
+        }
         11 => Scenario::TwinTimer { n: 1 + rng.usize_below(6), d_ns: *rng.pick(&[1_000_000u64, SEC, 6 * SEC]) },
         10 => Scenario::Rearm { n: 1 + rng.usize_below(6), d_ns: *rng.pick(&[1_000_000u64, SEC, 6 * SEC]), rearms: 1 + rng.usize_below(3) },
         // one task that stays runnable for several hundred thousand polls within one instant (takes the executor
@@ -639,7 +677,7 @@ pub fn gen_case(rng: &mut Rng, known_shape: bool) -> Case {
         let mut t = gen_trigger(rng, at, local, false);
         let completes_in_instant = match &t.scenario {
             Scenario::Burst { sleep_ns, .. } => *sleep_ns == 0,
-            Scenario::Captured { .. } | Scenario::Answered { .. } | Scenario::Rearm { .. } | Scenario::TwinTimer { .. } => false,
+            Scenario::Captured { .. } | Scenario::Answered { .. } | Scenario::Rearm { .. } | Scenario::TwinTimer { .. } | Scenario::LateAnswer { .. } => false,
             _ => true,
         };
         if completes_in_instant && t.time_ns > 0 {
@@ -702,6 +740,7 @@ pub fn cmd(args: &Args) -> Report {
                 Scenario::Answered { .. } => "scenarios_timeout_answered_within_the_instant_then_sleep",
                 Scenario::Rearm { .. } => "scenarios_sleep_rearmed_to_its_own_deadline",
                 Scenario::TwinTimer { .. } => "scenarios_twin_timers_first_dropped",
+                Scenario::LateAnswer { .. } => "scenarios_timeout_answered_in_a_later_event_then_sleep",
             };
             rep.count(key, 1);
             if t.local {
